@@ -928,20 +928,118 @@ Definition within_limits (s : st) : Prop :=
   N.of_nat (length (s_vols s)) <= s_maxv s /\ N.of_nat (length (s_dirs s)) <= s_maxd s /\
   N.of_nat (length (s_files s)) <= s_maxf s.
 
+(* ---- swap_remove, pointwise; it keeps a duplicate-free list duplicate-free ---- *)
+Lemma nth_error_firstn_lt {A} (l : list A) : forall k j, (j < k)%nat -> nth_error (firstn k l) j = nth_error l j.
+Proof.
+  induction l as [|h t IH]; intros [|k] [|j] H; cbn [firstn nth_error]; try lia; try reflexivity.
+  apply IH. lia.
+Qed.
+Lemma nth_error_list_set {A} (l : list A) : forall i x j,
+  nth_error (list_set l i x) j = if Nat.eqb j i then (if Nat.ltb i (length l) then Some x else None) else nth_error l j.
+Proof.
+  induction l as [|h t IH]; intros [|i] x [|j]; cbn [list_set nth_error length Nat.eqb]; try reflexivity.
+  - destruct (Nat.eqb j i); reflexivity.
+  - rewrite IH. destruct (Nat.eqb j i); [|reflexivity].
+    change (S i <? S (length t))%nat with (i <? length t)%nat. reflexivity.
+Qed.
+Lemma rev_cons_last {A} (l : list A) last r : rev l = last :: r ->
+  nth_error l (length l - 1) = Some last.
+Proof.
+  intros H. assert (E : l = rev r ++ [last]) by (rewrite <- (rev_involutive l), H; reflexivity).
+  rewrite E, app_length, rev_length. cbn [length].
+  rewrite nth_error_app2 by (rewrite rev_length; lia). rewrite rev_length.
+  replace (length r + 1 - 1 - length r)%nat with 0%nat by lia. reflexivity.
+Qed.
+
+(* swap_remove, pointwise: position i gets the last element, the others stay, the list is one shorter *)
+Lemma swap_remove_nth {A} (l : list A) i j : (i < length l)%nat -> (j < length l - 1)%nat ->
+  nth_error (swap_remove l i) j = nth_error l (if Nat.eqb j i then (length l - 1)%nat else j).
+Proof.
+  intros Hi Hj. unfold swap_remove. destruct (rev l) as [|last r] eqn:Hr.
+  { apply (f_equal (@length A)) in Hr. rewrite rev_length in Hr. cbn in Hr. lia. }
+  pose proof (rev_cons_last l last r Hr) as Hlast.
+  destruct (Nat.eqb i (length l - 1)) eqn:Ei.
+  - apply Nat.eqb_eq in Ei. rewrite nth_error_firstn_lt by lia.
+    destruct (Nat.eqb j i) eqn:Ej; [apply Nat.eqb_eq in Ej; lia | reflexivity].
+  - rewrite nth_error_firstn_lt by lia. rewrite nth_error_list_set.
+    destruct (Nat.eqb j i); [|reflexivity].
+    destruct (Nat.ltb_spec i (length l)); [|lia]. symmetry. exact Hlast.
+Qed.
+
+Lemma swap_remove_NoDup {A} (l : list A) i : NoDup l -> NoDup (swap_remove l i).
+Proof.
+  intros Hnd.
+  destruct (Nat.ltb_spec i (length l)) as [Hi|Hi].
+  - apply NoDup_nth_error. intros j1 j2 Hj1 E.
+    rewrite swap_remove_length in Hj1 by exact Hi.
+    assert (Hj2 : (j2 < length l - 1)%nat).
+    { rewrite <- (swap_remove_length l i Hi). apply nth_error_Some. rewrite <- E.
+      apply nth_error_Some. rewrite swap_remove_length by exact Hi. exact Hj1. }
+    rewrite !swap_remove_nth in E by assumption.
+    rewrite NoDup_nth_error in Hnd.
+    assert (Hlt : ((if Nat.eqb j1 i then (length l - 1)%nat else j1) < length l)%nat)
+      by (destruct (Nat.eqb j1 i); lia).
+    specialize (Hnd _ _ Hlt E).
+    destruct (Nat.eqb_spec j1 i), (Nat.eqb_spec j2 i); lia.
+  - (* index out of range: the model still drops the last element *)
+    unfold swap_remove. destruct (rev l) as [|last r] eqn:Hr; [exact Hnd|].
+    assert (Hls : forall (l0 : list A) k x, (length l0 <= k)%nat -> list_set l0 k x = l0).
+    { induction l0 as [|h t IH]; intros [|k] x Hk; cbn in *; try reflexivity; try lia.
+      rewrite IH by lia. reflexivity. }
+    rewrite Hls by exact Hi.
+    assert (Hf : forall k, NoDup (firstn k l)).
+    { clear - Hnd. induction Hnd as [|h t Hh Ht IH]; intros [|k]; cbn [firstn]; try constructor.
+      - intros Hin. apply Hh. eapply In_firstn. exact Hin.
+      - apply IH. }
+    destruct (Nat.eqb i (length l - 1)); apply Hf.
+Qed.
+
+Lemma map_swap_remove {A B} (g : A -> B) (l : list A) i : map g (swap_remove l i) = swap_remove (map g l) i.
+Proof.
+  unfold swap_remove. rewrite <- map_rev, map_length.
+  destruct (rev l) as [|last r]; [reflexivity|]. cbn [map].
+  assert (Hls : forall (l0 : list A) k x, map g (list_set l0 k x) = list_set (map g l0) k (g x)).
+  { induction l0 as [|h t IH]; intros [|k] x; cbn; try reflexivity. rewrite IH. reflexivity. }
+  destruct (Nat.eqb i (length l - 1)); rewrite <- firstn_map; [reflexivity | rewrite Hls; reflexivity].
+Qed.
+
+(* after removing index i from a list without duplicates (under g), g (l[i]) is gone *)
+Lemma swap_remove_gone {A B} (g : A -> B) (l : list A) i x :
+  NoDup (map g l) -> nth_error l i = Some x -> ~ In (g x) (map g (swap_remove l i)).
+Proof.
+  intros Hnd Hx Hin. rewrite map_swap_remove in Hin.
+  assert (Hi : (i < length (map g l))%nat) by (rewrite map_length; apply nth_error_Some; congruence).
+  apply In_nth_error in Hin. destruct Hin as [j Hj].
+  assert (Hjl : (j < length (map g l) - 1)%nat).
+  { rewrite <- (swap_remove_length _ i Hi). apply nth_error_Some. congruence. }
+  rewrite swap_remove_nth in Hj by assumption.
+  rewrite NoDup_nth_error in Hnd.
+  assert (Ex : nth_error (map g l) i = Some (g x)) by (apply map_nth_error; exact Hx).
+  assert (Hlt : ((if Nat.eqb j i then (length (map g l) - 1)%nat else j) < length (map g l))%nat)
+    by (destruct (Nat.eqb j i); lia).
+  specialize (Hnd _ i Hlt ltac:(congruence)).
+  destruct (Nat.eqb_spec j i); lia.
+Qed.
+
+Lemma swap_remove_NoDup_map {A} (g : A -> N) (l : list A) i : NoDup (map g l) -> NoDup (map g (swap_remove l i)).
+Proof. intros H. rewrite map_swap_remove. apply swap_remove_NoDup. exact H. Qed.
+
 (* the tables only lose entries; counter and limits equal (the lock is not constrained) *)
 Definition shrunk (s s' : st) : Prop :=
   limits_eq s s' /\ s_next_id s' = s_next_id s /\
   (length (s_vols s') <= length (s_vols s))%nat /\ (length (s_dirs s') <= length (s_dirs s))%nat /\
   (length (s_files s') <= length (s_files s))%nat /\
-  incl (vids s') (vids s) /\ incl (dids s') (dids s) /\ incl (fids s') (fids s).
+  incl (vids s') (vids s) /\ incl (dids s') (dids s) /\ incl (fids s') (fids s) /\
+  (NoDup (vids s) -> NoDup (vids s')) /\ (NoDup (dids s) -> NoDup (dids s')) /\ (NoDup (fids s) -> NoDup (fids s')).
 
 Lemma shrunk_refl s : shrunk s s.
 Proof. unfold shrunk, limits_eq. repeat split; auto using incl_refl. Qed.
 Lemma shrunk_trans a b c : shrunk a b -> shrunk b c -> shrunk a c.
 Proof.
   unfold shrunk, limits_eq.
-  intros ((A1 & A2 & A3) & A4 & A5 & A6 & A7 & A8 & A9 & A10) ((B1 & B2 & B3) & B4 & B5 & B6 & B7 & B8 & B9 & B10).
-  repeat split; try congruence; try lia; eapply incl_tran; eassumption.
+  intros ((A1 & A2 & A3) & A4 & A5 & A6 & A7 & A8 & A9 & A10 & A11 & A12 & A13)
+         ((B1 & B2 & B3) & B4 & B5 & B6 & B7 & B8 & B9 & B10 & B11 & B12 & B13).
+  repeat split; try congruence; try lia; try (eapply incl_tran; eassumption); auto.
 Qed.
 Lemma map_eq_length {A} (g : A -> N) l l' : map g l' = map g l -> length l' = length l.
 Proof. intros H. apply (f_equal (@length N)) in H. rewrite !map_length in H. exact H. Qed.
@@ -968,17 +1066,17 @@ Qed.
 Lemma shrunk_remove_vol s i : shrunk s (set_s_vols s (swap_remove (s_vols s) i)).
 Proof.
   unfold shrunk, limits_eq, vids, dids, fids. st_cbn.
-  repeat split; auto using incl_refl, swap_remove_length_le, swap_remove_incl_map.
+  repeat split; auto using incl_refl, swap_remove_length_le, swap_remove_incl_map, swap_remove_NoDup_map.
 Qed.
 Lemma shrunk_remove_dir s i : shrunk s (set_s_dirs s (swap_remove (s_dirs s) i)).
 Proof.
   unfold shrunk, limits_eq, vids, dids, fids. st_cbn.
-  repeat split; auto using incl_refl, swap_remove_length_le, swap_remove_incl_map.
+  repeat split; auto using incl_refl, swap_remove_length_le, swap_remove_incl_map, swap_remove_NoDup_map.
 Qed.
 Lemma shrunk_remove_file s i : shrunk s (set_s_files s (swap_remove (s_files s) i)).
 Proof.
   unfold shrunk, limits_eq, vids, dids, fids. st_cbn.
-  repeat split; auto using incl_refl, swap_remove_length_le, swap_remove_incl_map.
+  repeat split; auto using incl_refl, swap_remove_length_le, swap_remove_incl_map, swap_remove_NoDup_map.
 Qed.
 
 Lemma get_dir_by_id_eq h s : get_dir_by_id h s =
@@ -1037,11 +1135,18 @@ Qed.
 (* ---- the summary of a call: limits equal, limits respected if they were, and the ids
    in the tables are old ones, or old ones plus the old counter value (then the counter
    advanced by one), or gone altogether (the harness-only Remount; W says its offset is a u32) *)
+(* a table without duplicate ids that does not contain the counter value stays without duplicates *)
+Definition nodup_pres (s s' : st) : Prop :=
+  (NoDup (vids s) -> ~ In (s_next_id s) (vids s) -> NoDup (vids s')) /\
+  (NoDup (dids s) -> ~ In (s_next_id s) (dids s) -> NoDup (dids s')) /\
+  (NoDup (fids s) -> ~ In (s_next_id s) (fids s) -> NoDup (fids s')).
+
 Definition op_effect (W : Prop) (s s' : st) : Prop :=
   limits_eq s s' /\ (within_limits s -> within_limits s') /\
   ((s_next_id s' = s_next_id s /\ incl (all_ids s') (all_ids s)) \/
    (s_next_id s' = (s_next_id s + 1) mod U32 /\ incl (all_ids s') (all_ids s ++ [s_next_id s])) \/
-   (all_ids s' = [] /\ (W -> s_next_id s' < U32))).
+   (all_ids s' = [] /\ (W -> s_next_id s' < U32))) /\
+  nodup_pres s s'.
 
 Lemma shrunk_within s s' : shrunk s s' -> within_limits s -> within_limits s'.
 Proof.
@@ -1051,25 +1156,27 @@ Proof.
 Qed.
 Lemma shrunk_incl s s' : shrunk s s' -> incl (all_ids s') (all_ids s).
 Proof.
-  intros (_ & _ & _ & _ & _ & A8 & A9 & A10). unfold all_ids.
+  intros (_ & _ & _ & _ & _ & A8 & A9 & A10 & _). unfold all_ids.
   apply incl_app; [apply incl_appl; exact A8|]. apply incl_appr.
   apply incl_app; [apply incl_appl; exact A9 | apply incl_appr; exact A10].
 Qed.
 Lemma shrunk_effect W s s' : shrunk s s' -> op_effect W s s'.
 Proof.
-  intros H. split; [exact (proj1 H)|]. split; [apply shrunk_within; exact H|].
-  left. split; [exact (proj1 (proj2 H)) | apply shrunk_incl; exact H].
+  intros H. split; [exact (proj1 H)|]. split; [apply shrunk_within; exact H|]. split.
+  - left. split; [exact (proj1 (proj2 H)) | apply shrunk_incl; exact H].
+  - destruct H as (_ & _ & _ & _ & _ & _ & _ & _ & N1 & N2 & N3). unfold nodup_pres. auto.
 Qed.
 Lemma incl_nil_eq {A} (l : list A) : incl l [] -> l = [].
 Proof. destruct l as [|x t]; [reflexivity|]. intros H. destruct (H x (or_introl eq_refl)). Qed.
 
 Lemma effect_shrunk_r W a b c : op_effect W a b -> shrunk b c -> op_effect W a c.
 Proof.
-  intros ((L1 & L2 & L3) & Hw & Hi) Hs.
-  pose proof Hs as ((M1 & M2 & M3) & Hn & _).
+  intros ((L1 & L2 & L3) & Hw & Hi & (D1 & D2 & D3)) Hs.
+  pose proof Hs as ((M1 & M2 & M3) & Hn & _ & _ & _ & _ & _ & _ & N1 & N2 & N3).
   split; [unfold limits_eq; repeat split; congruence|].
   split; [intros H; apply (shrunk_within _ _ Hs); apply Hw; exact H|].
   pose proof (shrunk_incl _ _ Hs) as Hinc.
+  split; [|unfold nodup_pres; auto].
   destruct Hi as [[H1 H2]|[[H1 H2]|[H1 H2]]].
   - left. split; [congruence | eapply incl_tran; eassumption].
   - right. left. split; [congruence | eapply incl_tran; eassumption].
@@ -1077,11 +1184,13 @@ Proof.
 Qed.
 Lemma effect_shrunk_l W a b c : shrunk a b -> op_effect W b c -> op_effect W a c.
 Proof.
-  intros Hs ((L1 & L2 & L3) & Hw & Hi).
-  pose proof Hs as ((M1 & M2 & M3) & Hn & _).
+  intros Hs ((L1 & L2 & L3) & Hw & Hi & (D1 & D2 & D3)).
+  pose proof Hs as ((M1 & M2 & M3) & Hn & _ & _ & _ & I1 & I2 & I3 & N1 & N2 & N3).
   split; [unfold limits_eq; repeat split; congruence|].
   split; [intros H; apply Hw; apply (shrunk_within _ _ Hs); exact H|].
   pose proof (shrunk_incl _ _ Hs) as Hinc.
+  split; [|unfold nodup_pres; rewrite Hn in D1, D2, D3; repeat split; intros Hd Hni;
+           [apply D1 | apply D2 | apply D3]; auto].
   destruct Hi as [[H1 H2]|[[H1 H2]|[H1 H2]]].
   - left. split; [congruence | eapply incl_tran; eassumption].
   - right. left. split; [congruence|]. rewrite Hn in H2.
@@ -1095,7 +1204,9 @@ Proof.
   split; [unfold limits_eq; auto|]. split.
   - unfold within_limits. intros (B1 & B2 & B3). unfold vids, dids, fids in *.
     rewrite (map_eq_length _ _ _ H1), (map_eq_length _ _ _ H2), (map_eq_length _ _ _ H3), H6, H7, H8. auto.
-  - right. left. split; [exact H4|]. unfold all_ids. rewrite H1, H2, H3. apply incl_appl, incl_refl.
+  - split.
+    + right. left. split; [exact H4|]. unfold all_ids. rewrite H1, H2, H3. apply incl_appl, incl_refl.
+    + unfold nodup_pres. rewrite H1, H2, H3. auto.
 Qed.
 
 Lemma pushed_effect W K s s' : pushed K s s' -> op_effect W s s'.
@@ -1106,23 +1217,32 @@ Proof.
             is_full l cap = false -> N.of_nat (length l') <= cap).
   { intros A B g g' l' l x cap Hm Hf. apply (f_equal (@length N)) in Hm.
     rewrite app_length, !map_length in Hm. cbn in Hm. unfold is_full in Hf. apply N.leb_gt in Hf. lia. }
-  unfold within_limits, all_ids, vids, dids, fids in *.
+  assert (Hsnoc : forall (l : list N) x, NoDup l -> ~ In x l -> NoDup (l ++ [x])).
+  { intros l x Hl0 Hx. induction Hl0 as [|h t Hh Ht IH]; cbn [app].
+    - constructor; [intros [] | constructor].
+    - constructor; [|apply IH; intros Hi; apply Hx; right; exact Hi].
+      intros Hi. apply in_app_iff in Hi. destruct Hi as [Hi|[Hi|[]]]; [exact (Hh Hi)|].
+      apply Hx. left. symmetry. exact Hi. }
+  unfold within_limits, nodup_pres, all_ids, vids, dids, fids in *.
   destruct K; destruct HK as (Hf & V & D & F).
-  - split.
+  - split; [|split].
     + intros (B1 & B2 & B3). rewrite L1, L2, L3, (map_eq_length _ _ _ D), (map_eq_length _ _ _ F).
       repeat split; try assumption. eapply Hlen; eassumption.
     + right. left. split; [exact Hn|]. rewrite V, D, F. intros x Hx.
       rewrite !in_app_iff in *. cbn in *. tauto.
-  - split.
+    + rewrite V, D, F. auto.
+  - split; [|split].
     + intros (B1 & B2 & B3). rewrite L1, L2, L3, (map_eq_length _ _ _ V), (map_eq_length _ _ _ F).
       repeat split; try assumption. eapply Hlen; eassumption.
     + right. left. split; [exact Hn|]. rewrite V, D, F. intros x Hx.
       rewrite !in_app_iff in *. cbn in *. tauto.
-  - split.
+    + rewrite V, D, F. auto.
+  - split; [|split].
     + intros (B1 & B2 & B3). rewrite L1, L2, L3, (map_eq_length _ _ _ V), (map_eq_length _ _ _ D).
       repeat split; try assumption. eapply Hlen; eassumption.
     + right. left. split; [exact Hn|]. rewrite V, D, F. intros x Hx.
       rewrite !in_app_iff in *. cbn in *. tauto.
+    + rewrite V, D, F. auto.
 Qed.
 
 Lemma Fin_effect W K s o s' : Fin K s o s' -> op_effect W s s'.
@@ -1266,7 +1386,8 @@ Proof.
     unfold remount, modify in E. inversion E; subst. clear E.
     split; [unfold limits_eq; repeat split; reflexivity|].
     split; [intros (B1 & B2 & B3); unfold within_limits; st_cbn; cbn [length]; repeat split; lia|].
-    right. right. split; [reflexivity|]. intros Hw. exact Hw.
+    split; [right; right; split; [reflexivity|]; intros Hw; exact Hw|].
+    unfold nodup_pres, vids, dids, fids. st_cbn. cbn [map]. repeat split; intros; constructor.
 Qed.
 
 (* C08, limits: no call - whatever its outcome, including Panic - leaves more open objects
@@ -1358,7 +1479,7 @@ Qed.
 
 Lemma fresh_inv_effect (W : Prop) age_max s s' : W -> op_effect W s s' -> fresh_inv age_max s -> fresh_inv (age_max + 1) s'.
 Proof.
-  intros HW (_ & _ & Hi) (Hn & H).
+  intros HW (_ & _ & Hi & _) (Hn & H).
   destruct Hi as [[H1 H2]|[[H1 H2]|[H1 H2]]].
   - split; [congruence|]. intros x Hx. destruct (H x (H2 x Hx)) as (Hx32 & k & K1 & K2 & K3).
     split; [exact Hx32|]. exists k. rewrite H1. repeat split; try assumption; lia.
@@ -1492,6 +1613,115 @@ Proof.
     split; reflexivity.
 Qed.
 
+(* ================================================================== 5b. no duplicate ids; closed handles are stale *)
+(* the invariant of a manager used within the window: the freshness invariant, and no id
+   occurs twice in a table *)
+Definition handles_ok (age_max : N) (s : st) : Prop :=
+  fresh_inv age_max s /\ NoDup (vids s) /\ NoDup (dids s) /\ NoDup (fids s).
+
+Theorem C08_handles_ok_step : forall age_max o s, age_max < U32 - 1 -> remount_ok o ->
+  handles_ok age_max s -> handles_ok (age_max + 1) (snd (step o s)).
+Proof.
+  intros age_max o s Ha Hw (Hf & Nv & Nd & Nf).
+  split; [exact (proj2 (C08_fresh age_max o s Ha Hf Hw))|].
+  destruct (step o s) as [out s'] eqn:E. cbn [snd].
+  destruct (step_effect o s out s' E) as (_ & _ & _ & D1 & D2 & D3).
+  assert (Hni : forall x, In x (all_ids s) -> x <> s_next_id s)
+    by (apply (fresh_inv_distinct age_max); [lia | exact Hf]).
+  unfold all_ids in Hni.
+  repeat split; [apply D1 | apply D2 | apply D3]; try assumption;
+    intros Hin; apply (Hni (s_next_id s)); try reflexivity; rewrite !in_app_iff; auto.
+Qed.
+
+Example handles_ok_init : forall d id maxv maxd maxf faults, id < U32 ->
+  handles_ok 0 (init_state d id maxv maxd maxf faults).
+Proof.
+  intros. split; [exact (proj1 (fresh_inv_init d id maxv maxd maxf faults H))|].
+  repeat split; constructor.
+Qed.
+
+(* a successfully closed handle is no longer in its table (given no duplicates), so by the
+   stale-handle theorems every later call that takes it is refused with BadHandle *)
+Theorem C08_closed_dir_handle_stale : forall h s out s',
+  NoDup (dids s) -> step (CloseDir h) s = (Ok out, s') -> no_dir h s'.
+Proof.
+  intros h s out s' Hnd E. cbn [step] in E. apply lift_ok_inv in E. destruct E as (a & E & _).
+  unfold close_dir in E. destruct (s_lock s) eqn:Hl.
+  { rewrite (locked_held _ s Hl) in E. discriminate. }
+  rewrite (locked_free _ s Hl) in E. unfold bind in E. rewrite get_dir_by_id_eq in E.
+  destruct (find_idx _ _ _) as [i|] eqn:Ef; [|discriminate].
+  unfold modify in E. injection E as _ <-.
+  apply find_idx_some in Ef. destruct Ef as (_ & _ & x & Hx & Hp). rewrite Nat.sub_0_r in Hx.
+  apply N.eqb_eq in Hp. intros d Hd Hid. cbn [s_dirs set_s_dirs] in Hd.
+  apply (swap_remove_gone d_id (s_dirs s) i x Hnd Hx). rewrite Hp, <- Hid. apply in_map. exact Hd.
+Qed.
+
+(* what close_file does: flush (tables keep their shape), then remove the entry *)
+Definition close_file_post (h : N) (s : st) (out : outcome unit) (s' : st) : Prop :=
+  out = Panic \/ out = OutOfFuel \/
+  exists s1, same_tables_shape s s1 /\
+    ((out = Err BadHandle /\ s' = s1 /\ find_idx (fun f => f_id f =? h) (s_files s1) 0 = None) \/
+     (exists i, find_idx (fun f => f_id f =? h) (s_files s1) 0 = Some i /\
+                s' = set_s_files s1 (swap_remove (s_files s1) i))).
+
+Lemma close_file_run h s out s' : s_lock s = false -> close_file h s = (out, s') ->
+  close_file_post h s out s'.
+Proof.
+  intros Hl E. unfold close_file in E. unfold bind at 1 in E. unfold try in E.
+  destruct (flush_file h s) as [o1 s1] eqn:E1.
+  pose proof (keeps_frame _ (fun s0 => keeps_flush_file s0 h) _ _ _ E1) as H1.
+  assert (Hl1 : s_lock s1 = false) by (destruct H1 as (_ & _ & _ & _ & Hl1 & _); congruence).
+  assert (Htail : forall r : unit + err, locked (fi <- get_file_by_id h ;;
+            modify (fun s => set_s_files s (swap_remove (s_files s) fi)) ;;;
+            match r with inl _ => ret tt | inr e => fail e end) s1 = (out, s') ->
+     close_file_post h s out s').
+  { intros r E2. right. right. exists s1. split; [exact H1|].
+    rewrite (locked_free _ s1 Hl1) in E2. unfold bind at 1 in E2. rewrite get_file_by_id_eq in E2.
+    destruct (find_idx _ _ _) as [i|] eqn:Ef.
+    - right. exists i. split; [reflexivity|]. unfold bind, modify in E2.
+      destruct r; inversion E2; reflexivity.
+    - left. inversion E2. auto. }
+  destruct o1 as [a|e| |].
+  - exact (Htail (inl a) E).
+  - exact (Htail (inr e) E).
+  - inversion E. left. reflexivity.
+  - inversion E. right. left. reflexivity.
+Qed.
+
+Theorem C08_closed_file_handle_stale : forall h s out s',
+  NoDup (fids s) -> step (CloseFile h) s = (Ok out, s') -> no_file h s'.
+Proof.
+  intros h s out s' Hnd E. cbn [step] in E. apply lift_ok_inv in E. destruct E as (a & E & _).
+  destruct (s_lock s) eqn:Hl.
+  { rewrite (close_file_locked h s Hl) in E. discriminate. }
+  destruct (close_file_run h s _ _ Hl E) as [H|[H|(s1 & Hs & [(H & _)|(i & Ef & ->)])]]; try discriminate.
+  assert (Hnd1 : NoDup (fids s1)) by (destruct Hs as (_ & _ & F & _); rewrite F; exact Hnd).
+  apply find_idx_some in Ef. destruct Ef as (_ & _ & x & Hx & Hp). rewrite Nat.sub_0_r in Hx.
+  apply N.eqb_eq in Hp. intros f Hf Hid. cbn [s_files set_s_files] in Hf.
+  apply (swap_remove_gone f_id (s_files s1) i x Hnd1 Hx). rewrite Hp, <- Hid. apply in_map. exact Hf.
+Qed.
+
+(* closing a file frees its slot, whether or not the flush inside succeeded (unless it
+   panicked): the file table is one shorter, the other tables keep their ids *)
+Theorem C08_close_file_frees : forall h s out s', s_lock s = false ->
+  (exists f, In f (s_files s) /\ f_id f = h) ->
+  close_file h s = (out, s') -> out <> Panic -> out <> OutOfFuel ->
+  length (s_files s') = (length (s_files s) - 1)%nat /\ vids s' = vids s /\ dids s' = dids s.
+Proof.
+  intros h s out s' Hl (f & Hin & Hid) E Hp Ho.
+  destruct (close_file_run h s _ _ Hl E) as [H|[H|(s1 & Hs & Hcase)]]; try contradiction.
+  destruct Hs as (V & D & F & _).
+  assert (Hex : exists x, In x (s_files s1) /\ (f_id x =? h) = true).
+  { assert (Hi : In h (fids s1)) by (rewrite F; unfold fids; rewrite <- Hid; apply in_map; exact Hin).
+    unfold fids in Hi. apply in_map_iff in Hi. destruct Hi as (x & Hx1 & Hx2).
+    exists x. split; [exact Hx2 | apply N.eqb_eq; exact Hx1]. }
+  destruct (find_idx_exists _ _ Hex 0) as (j & Hj & Hlt & _). rewrite Nat.sub_0_r in Hlt.
+  destruct Hcase as [(_ & _ & Hnone)|(i & Ef & ->)]; [congruence|].
+  rewrite Hj in Ef. injection Ef as <-.
+  unfold vids, dids in *. st_cbn. rewrite swap_remove_length by exact Hlt.
+  unfold fids in F. rewrite (map_eq_length _ _ _ F). auto.
+Qed.
+
 (* ================================================================== assumptions *)
 Print Assumptions C08_reentrant.
 Print Assumptions C08_reentrant_excluded.
@@ -1514,3 +1744,97 @@ Print Assumptions C08_close_dir_frees.
 Print Assumptions step_handle.
 Print Assumptions C08_fresh.
 Print Assumptions C08_wrap_refuted_state.
+Print Assumptions C08_handles_ok_step.
+Print Assumptions C08_closed_dir_handle_stale.
+Print Assumptions C08_closed_file_handle_stale.
+Print Assumptions C08_close_file_frees.
+
+(* ================================================================== addendum: closing a volume frees its slot *)
+(* a projection of the state that a computation leaves alone *)
+Definition fixes {X A} (f : st -> X) (m : M A) : Prop := forall s o s', m s = (o, s') -> f s' = f s.
+
+Lemma fixes_bind {X A B} (f : st -> X) (m : M A) (k : A -> M B) :
+  fixes f m -> (forall a, fixes f (k a)) -> fixes f (bind m k).
+Proof.
+  intros Hm Hk s o s' E. unfold bind in E.
+  destruct (m s) as [[a|e| |] s1] eqn:Em; pose proof (Hm _ _ _ Em) as H1.
+  - rewrite (Hk a _ _ _ E). exact H1.
+  - inversion E; subst; exact H1.
+  - inversion E; subst; exact H1.
+  - inversion E; subst; exact H1.
+Qed.
+Lemma fixes_try {X A} (f : st -> X) (m : M A) : fixes f m -> fixes f (try m).
+Proof.
+  intros Hm s o s' E. unfold try in E.
+  destruct (m s) as [[a|e| |] s1] eqn:Em; pose proof (Hm _ _ _ Em) as H1; inversion E; subst; exact H1.
+Qed.
+Lemma fixes_pure {X A} (f : st -> X) (m : M A) : (forall s, snd (m s) = s) -> fixes f m.
+Proof. intros H s o s' E. pose proof (H s) as H1. rewrite E in H1. cbn in H1. subst. reflexivity. Qed.
+Lemma fixes_modify {X} (f : st -> X) g : (forall s, f (g s) = f s) -> fixes f (modify g).
+Proof. intros H s o s' E. inversion E; subst. apply H. Qed.
+
+Definition the_tables (s : st) := (s_vols s, s_dirs s, s_files s).
+
+Ltac fixes_step :=
+  match goal with
+  | |- fixes _ (bind _ _) => apply fixes_bind; [|intros ?]
+  | |- fixes _ (try _) => apply fixes_try
+  | |- fixes _ (modify _) => apply fixes_modify; intros ?; reflexivity
+  | |- fixes _ (ret _) => apply fixes_pure; intros ?; reflexivity
+  | |- fixes _ (fail _) => apply fixes_pure; intros ?; reflexivity
+  | |- fixes _ panic => apply fixes_pure; intros ?; reflexivity
+  | |- fixes _ get => apply fixes_pure; intros ?; reflexivity
+  | |- fixes _ (if ?b then _ else _) => destruct b
+  | |- fixes _ (match ?x with _ => _ end) => destruct x
+  | |- fixes _ _ => solve [auto 2]
+  end.
+
+Lemma fixes_dev_read i : fixes the_tables (dev_read i).
+Proof. intros s o s' E. unfold dev_read in E. destruct (faulty s); inversion E; subst; reflexivity. Qed.
+Lemma fixes_dev_write i b : fixes the_tables (dev_write i b).
+Proof. intros s o s' E. unfold dev_write in E. destruct (faulty s); inversion E; subst; reflexivity. Qed.
+Lemma fixes_cache_read i : fixes the_tables (cache_read i).
+Proof. pose proof fixes_dev_read. unfold cache_read. repeat fixes_step. Qed.
+Lemma fixes_write_back : fixes the_tables write_back.
+Proof. pose proof fixes_dev_write. unfold write_back. repeat fixes_step. Qed.
+Lemma fixes_get_vol vi : fixes the_tables (get_vol vi).
+Proof. intros s o s' E. rewrite get_vol_eq in E. destruct (nth_error _ _); inversion E; subst; reflexivity. Qed.
+
+(* update_info_sector writes to the medium but leaves the three tables exactly as they are *)
+Lemma fixes_update_info_sector vi : fixes the_tables (update_info_sector vi).
+Proof.
+  pose proof fixes_cache_read. pose proof fixes_write_back. pose proof fixes_get_vol.
+  unfold update_info_sector, cache_modify. repeat fixes_step.
+Qed.
+
+(* C08: a successful CloseVol leaves the volume table exactly one shorter - the entry with
+   that id is removed (the last entry takes its place) and, ids being distinct, the id is
+   gone - and the directory and file tables are untouched *)
+Theorem C08_close_vol_frees : forall h s out s',
+  step (CloseVol h) s = (Ok out, s') ->
+  (exists i x, nth_error (s_vols s) i = Some x /\ v_id x = h /\ s_vols s' = swap_remove (s_vols s) i) /\
+  length (s_vols s') = (length (s_vols s) - 1)%nat /\
+  s_dirs s' = s_dirs s /\ s_files s' = s_files s /\
+  (NoDup (vids s) -> no_vol h s').
+Proof.
+  intros h s out s' E. cbn [step] in E. apply lift_ok_inv in E. destruct E as (a & E & _).
+  unfold close_volume in E. destruct (s_lock s) eqn:Hl.
+  { rewrite (locked_held _ s Hl) in E. discriminate. }
+  rewrite (locked_free _ s Hl), bind_get in E.
+  destruct (existsb _ (s_files s)); [discriminate|].
+  destruct (existsb _ (s_dirs s)); [discriminate|].
+  unfold bind at 1 in E. rewrite get_volume_by_id_eq in E.
+  destruct (find_idx _ _ _) as [vi|] eqn:Ef; [|discriminate].
+  unfold bind in E. destruct (update_info_sector vi s) as [o1 s1] eqn:E1.
+  pose proof (fixes_update_info_sector vi _ _ _ E1) as Ht. unfold the_tables in Ht.
+  injection Ht as Hv Hd Hf.
+  destruct o1; try discriminate. unfold modify in E. injection E as _ <-.
+  apply find_idx_some in Ef. destruct Ef as (_ & Hlt & x & Hx & Hp). rewrite Nat.sub_0_r in Hx, Hlt.
+  apply N.eqb_eq in Hp. cbn [s_vols s_dirs s_files set_s_vols]. rewrite Hv.
+  split; [exists vi, x; auto|]. split; [apply swap_remove_length; exact Hlt|].
+  split; [exact Hd|]. split; [exact Hf|].
+  intros Hnd v Hin Hid.
+  apply (swap_remove_gone v_id (s_vols s) vi x Hnd Hx). rewrite Hp, <- Hid. apply in_map. exact Hin.
+Qed.
+
+Print Assumptions C08_close_vol_frees.
